@@ -68,6 +68,8 @@ def ns():
             LEVEL = Option.auto(default=3, doc="level")
             FMT = Option("FMT", "plain")
             KEEP: int
+            PATH = "{A}/x.csv"          # bare class attribute with a templated default
+            NUM = 5
 
         @Option.namespace
         class SERVICE_A:
@@ -86,10 +88,14 @@ def ns():
         for rootname, nsobj in root.items():
             if rootname == "LOGGING":
                 out += [("LOGGING.LEVEL", lambda n=nsobj: n.LEVEL, Option("LOGGING.LEVEL", 3)), ("LOGGING.FMT", lambda n=nsobj: n.FMT, Option("LOGGING.FMT", "plain")),
-                        ("LOGGING.KEEP", lambda n=nsobj: n.KEEP, Option("LOGGING.KEEP"))]
+                        ("LOGGING.KEEP", lambda n=nsobj: n.KEEP, Option("LOGGING.KEEP")), ("LOGGING.PATH", lambda n=nsobj: n.PATH, Option("LOGGING.PATH", "{A}/x.csv")),
+                        ("LOGGING.NUM", lambda n=nsobj: n.NUM, Option("LOGGING.NUM", 5))]
             else:
                 out += [(f"{rootname}.LOGGING.LEVEL", lambda n=nsobj: n.LOGGING_.LEVEL, Option(f"{rootname}.LOGGING.LEVEL", 3)),
-                        (f"{rootname}.LOGGING.FMT", lambda n=nsobj: n.LOGGING_.FMT, Option(f"{rootname}.LOGGING.FMT", "plain"))]
+                        (f"{rootname}.LOGGING.FMT", lambda n=nsobj: n.LOGGING_.FMT, Option(f"{rootname}.LOGGING.FMT", "plain")),
+                        (f"{rootname}.LOGGING.PATH", lambda n=nsobj: n.LOGGING_.PATH, Option(f"{rootname}.LOGGING.PATH", "{A}/x.csv"))]
+                if rootname == "SERVICE_A":
+                    out.append(("SERVICE_A.NAME", lambda n=nsobj: n.NAME, Option("SERVICE_A.NAME", "a")))
         return out
 
     def rec(name, *deps):
@@ -384,7 +390,7 @@ def check_law(law, expr, o, fresh):
                 if back != ("ok", v) and e.domain is _M and not any(part.isdigit() for part in e.key.split(".")):   # F27: list-indexed keys
                     return f"after Option.set(o, {v}) the option evaluates to {back!r}"
             return None
-        if n == "Namespace":
+        if n == "Namespace" or (n == "dict" and e and all(type(x).__name__ == "Namespace" for x in e.values())):
             from labrea import Option as Opt
             # every member, reached through every mount point, behaves like the fully qualified Option
             for path, member, fq in ns()["NSPATHS"](e):
